@@ -30,6 +30,11 @@ import pyteal.compiler.scratchslots as _slots_mod
 
 from sim import builder
 
+# Recursion headroom given to every public-API call (run and reference alike).  PyTeal
+# evaluates recursive ABI subroutines until RecursionError (abi/type.py:229 swallows it); at the
+# default limit of 1000 that costs seconds per build, quadratic under the source-map gate.
+HEADROOM = int(os.environ.get("SIM_HEADROOM", "300"))
+
 REPO_PREFIXES: tuple = ()  # set by zygote: real paths of /repo/pyteal and /repo/feature_gates
 
 
@@ -342,6 +347,7 @@ class World:
         self.resolved_ops: list = []
         self.base_depth = None
         self.errmsgs: list = []  # free text (may contain ids/addresses): never compared
+        self.in_reclimit_fault = False
 
     def fired(self, kind):
         self.faults_fired[kind] = self.faults_fired.get(kind, 0) + 1
@@ -355,6 +361,9 @@ class World:
     # -- op bodies (each is ONE public API call or one builder step) -----------------
     def _do(self, op: dict):
         k = op["op"]
+        if not self.in_reclimit_fault:
+            # same recursion headroom for every op, in histories and in references alike
+            sys.setrecursionlimit(_depth() + HEADROOM)
         if k == "build":
             env = self.env(op["p"])
             i = env.next_step
@@ -405,7 +414,16 @@ class World:
         except RecursionError as e:
             return ("err", "RecursionError", "")
         except BaseException as e:  # noqa: BLE001 - outcome classification is the point
-            return ("err", type(e).__name__, str(e)[:300])
+            # formatting the message calls PyTeal's __str__: the op is over, no fault lands here
+            Injector.paused += 1
+            try:
+                try:
+                    msg = str(e)[:300]
+                except BaseException:  # noqa: BLE001
+                    msg = ""
+            finally:
+                Injector.paused -= 1
+            return ("err", type(e).__name__, msg)
 
     def _dry_count(self, op) -> list:
         """Fork; run `op` in the copy with a counting monitor; return the per-call tag list."""
@@ -491,9 +509,11 @@ class World:
         elif fault and fault["kind"] == "reclimit":
             old = sys.getrecursionlimit()
             sys.setrecursionlimit(_depth() + fault["headroom"])
+            self.in_reclimit_fault = True
             try:
                 out = self._guarded(op)
             finally:
+                self.in_reclimit_fault = False
                 sys.setrecursionlimit(old)
             if out[0] == "err" and out[1] == "RecursionError":
                 self.fired("reclimit")
@@ -609,6 +629,7 @@ def run_reference(job: dict) -> dict:
         IdHash.install(job["idhash_seed"])
     env = builder.ProgramEnv(job["spec"])
     gates = job.get("gate_steps") or []
+    sys.setrecursionlimit(_depth() + HEADROOM)
     try:
         for i in range(job["nsteps"]):
             g = gates[i] if i < len(gates) else [False, False]
